@@ -135,7 +135,7 @@ class IxWP(nvwp.WP):
         if n.get('kind') == 'BinaryOperator' and n.get('opcode') in ('+', '-') and '*' in qual(n['type']):
             b = self.ptr(n['inner'][0])
             k = self.ev(n['inner'][1])
-            return V(b.t, 'Ptr', (b.c[0], f'({n["opcode"]} {b.c[1]} {k.t})'))
+            return V(b.t, b.s, (b.c[0], f'({n["opcode"]} {b.c[1]} {k.t})'))
         if n.get('kind') in ('CallExpr', 'CXXMemberCallExpr'):
             v = self.ev(n)
             if v.s in ('Ptr', 'WPtr'):
